@@ -12,6 +12,7 @@ import (
 	"strconv"
 	"strings"
 	"sync"
+	"sync/atomic"
 	"time"
 
 	"github.com/openconfig/gribigo/aft"
@@ -28,7 +29,8 @@ const DefaultNI = "DEFAULT"
 
 // Input is one step of an input sequence (emitted by TLC or by a random driver).
 type Input struct {
-	A   string   `json:"a"` // reset | op | flush | addni
+	A   string   `json:"a"` // reset | op | flush | addni | hookstall
+	Ms  int      `json:"ms,omitempty"`
 	Op  *abs.Op  `json:"op,omitempty"`
 	NIs []string `json:"nis,omitempty"`
 	NI  string   `json:"ni,omitempty"`
@@ -74,12 +76,17 @@ type Mirror struct {
 	st  abs.RIBState
 	err error
 	n   int
+	// a slow consumer: the next notification is folded only after this long (set by the hookstall input)
+	stall atomic.Int64
 }
 
 func NewMirror() *Mirror { return &Mirror{st: abs.RIBState{}} }
 
 // Hook is a rib.RIBHookFn.
 func (m *Mirror) Hook(op constants.OpType, _ int64, ni string, s ygot.ValidatedGoStruct) {
+	if d := m.stall.Swap(0); d > 0 {
+		time.Sleep(time.Duration(d))
+	}
 	m.mu.Lock()
 	defer m.mu.Unlock()
 	m.n++
@@ -464,6 +471,10 @@ func (rn *Runner) step(in Input) error {
 			ev["msg"] = err.Error()
 		}
 		rn.Sink.Emit(ev)
+	case "hookstall":
+		// the consumer of the post-change hook takes this long over the next notification
+		rn.mirror.stall.Store(int64(time.Duration(in.Ms) * time.Millisecond))
+		rn.Sink.Emit(Event{"ev": "hookstall", "ms": in.Ms})
 	case "addni":
 		rn.Calls++
 		err := rn.r.AddNetworkInstance(in.NI)
